@@ -50,7 +50,7 @@ MODES = ["bootloader", "signer", "ui-heartbeat", "unknown", "other"]
 PINFILE = ["valid", "absent", "invalid", "forced"]
 ONB = ["yes", "no", "error"]
 RETRIES = [3, 2, 1, 0, 255, "error"]
-POSTEXIT = ["signer", "bootloader", "ui-heartbeat", "gone"]
+POSTEXIT = ["signer", "bootloader", "ui-heartbeat", "gone", "dashboard-then-bootloader"]
 NEWPIN = ["accept", "refuse", "error"]
 PLATFORMS = ["ledger", "sgx", "tcp"]
 DIMS = [PLATFORMS, MODES, PINFILE, ONB, RETRIES, [True, False], [True, False], POSTEXIT, NEWPIN]
@@ -129,7 +129,12 @@ def run_one(ch, cfg):
         if c["mode"] in ("unknown", "other"):
             dcfg["mode_byte"] = modebyte
         pe = {"signer": L.MODE_SIGNER, "bootloader": L.MODE_BOOTLOADER,
-              "ui-heartbeat": L.MODE_UI_HEARTBEAT, "gone": L.MODE_SIGNER}[c["post_exit"]]
+              "ui-heartbeat": L.MODE_UI_HEARTBEAT, "gone": L.MODE_SIGNER,
+              "dashboard-then-bootloader": 0x00}[c["post_exit"]]
+        if c["post_exit"] == "dashboard-then-bootloader":
+            # the mode query is not understood on the first connection after the exit (dashboard);
+            # on the next connection the device is a locked bootloader again
+            dcfg["dashboard_then"] = L.MODE_BOOTLOADER
         dcfg["post_exit_ui"] = {"mode": pe, "delay": 30.0 if c["post_exit"] == "gone" else
                                 ch.pick([0.2, 0.0, 0.9], "boot-delay"),
                                 "silence": ch.pick(["timeout", "read_err"], "exit-silence")}
